@@ -226,6 +226,10 @@ namespace avel {
     [[nodiscard]]
     AVEL_FINL std::uint16_t bit_ceil(std::uint16_t x) {
         #if defined(AVEL_LZCNT) && (defined(AVEL_GCC) || defined(AVEL_CLANG) || defined(AVEL_ICPX))
+        if (x == 0) {
+            return 1;
+        }
+
         auto sh = (32 - _lzcnt_u32(x - 1));
         auto result = 1 << sh;
         return result;
